@@ -141,3 +141,41 @@ fn self_update_or_disable_combined_with_self_remove() {
         assert!(matches!(h.enable(&tok), Err(calloop::Error::InvalidToken)), "variant {}: the source is still inserted", variant);
     }
 }
+
+/// a deferred self-request survives further handle calls made from the same callback for OTHER sources
+#[test]
+fn a_deferred_self_disable_survives_operations_on_other_sources() {
+    use calloop::ping::make_ping;
+    use calloop::{EventLoop, RegistrationToken};
+    use std::cell::Cell;
+    use std::rc::Rc;
+    use std::time::Duration;
+    for variant in 0..3u8 {
+        let mut el: EventLoop<u32> = EventLoop::try_new().unwrap();
+        let h = el.handle();
+        let (pa, sa) = make_ping().unwrap();
+        let (_pb, sb) = make_ping().unwrap();
+        let tb = h.insert_source(sb, |_, _, _| {}).unwrap();
+        let ta: Rc<Cell<Option<RegistrationToken>>> = Rc::new(Cell::new(None));
+        let (h2, ta2) = (h.clone(), ta.clone());
+        ta.set(Some(h.insert_source(sa, move |_, _, n: &mut u32| {
+            *n += 1;
+            h2.disable(&ta2.get().unwrap()).unwrap();         // deferred: we are running
+            match variant {                                   // ... and then something about another, idle source
+                0 => h2.update(&tb).unwrap(),
+                1 => { h2.disable(&tb).unwrap(); h2.enable(&tb).unwrap(); }
+                _ => { let (_p, s) = make_ping().unwrap(); let t = h2.insert_source(s, |_, _, _| {}).unwrap(); h2.remove(t); }
+            }
+        }).unwrap()));
+        pa.ping();
+        let mut n = 0;
+        el.dispatch(Duration::from_millis(100), &mut n).unwrap();
+        assert_eq!(n, 1);
+        pa.ping();
+        el.dispatch(Duration::from_millis(30), &mut n).unwrap();
+        assert_eq!(n, 1, "variant {}: a source that disabled itself from its callback was dispatched again", variant);
+        h.enable(&ta.get().unwrap()).unwrap();
+        el.dispatch(Duration::from_millis(100), &mut n).unwrap();
+        assert_eq!(n, 2, "variant {}: the ping that arrived while disabled is delivered after enable()", variant);
+    }
+}
